@@ -141,7 +141,9 @@ _nc = itertools.count(1000)
 
 
 # connections that can only be passing states of a history: references to a port / bundle member that does not exist
-TRANSIENT = {"pref-typo": ["pref", "u", "zzq"], "bref-typo": ["bref", "bb", ["zzmember"]], "pref-typo-sliced": ["slice", ["pref", "u", "zzw"], 0]}
+TRANSIENT = {"pref-typo": ["pref", "u", "zzq"], "bref-typo": ["bref", "bb", ["zzmember"]], "pref-typo-sliced": ["slice", ["pref", "u", "zzw"], 0],
+             "pref-typo-cat": ["cat", ["pref", "u", "zzv"], ["sig", "s1"]], "bref-typo-sliced": ["slice", ["bref", "bb", ["zzmember2"]], 0],
+             "bref-typo-cat": ["cat", ["sig", "t1"], ["bref", "b2", ["zzmember3"]]]}
 
 
 def realize(kind, port, k):
@@ -365,12 +367,12 @@ def gen_random(rng, kind, maxlen):
         hist.append((form, port, k))
         model[port] = k
     # a misspelt reference, corrected by a later operation on the same port
-    if rng.random() < 0.25:
+    if rng.random() < 0.4:
         idx = [i for i, (f, p, k) in enumerate(hist) if f in ("call", "setattr", "connect") and ":" not in p
                and any(p2 == p and f2 in ("call", "setattr", "connect", "replace") for (f2, p2, k2) in hist[i + 1:])]
         if idx:
             i = rng.choice(idx)
-            hist.insert(i + 1, ("setattr", hist[i][1], rng.choice(["pref-typo", "bref-typo"])))
+            hist.insert(i + 1, ("setattr", hist[i][1], rng.choice(["pref-typo", "bref-typo", "pref-typo-sliced", "pref-typo-cat", "bref-typo-sliced", "bref-typo-cat"])))
     return hist + complete(kind, model, rng)
 
 
